@@ -79,7 +79,7 @@ def run_impl(c):
 
 
 def generate(rng, tier, mult):
-    n_pipes = (40 if tier == "quick" else 400) * mult
+    n_pipes = (40 if tier == "quick" else 1000) * mult
     cases = []
     for _ in range(n_pipes):
         pd = pipegen.gen_pipeline(rng)
